@@ -20,6 +20,7 @@ func init() {
 			c11BufferSizes(c)
 			c17Selection(c)
 			c17UnsafeViews(c)
+			configReadOnlyRules(c, "C11")
 		},
 	})
 }
